@@ -214,6 +214,29 @@ func c11(w *World) {
 	}
 	n := 1 + w.W.Draw(w.Deep(12))
 	for i := 0; i < n && !sc.P.EOF && w.Sched.AbortReason() == ""; i++ {
+		if w.W.Chance(1, 3) {
+			// nothing hostile about the bytes, only about the order: valid administrative messages in any
+			// sequence (logon, logout, logon again, ...) must not crash the inbound path either
+			var raw []byte
+			switch w.W.Draw(6) {
+			case 0:
+				raw = sc.Msg("A", LogonFields(30, "0", "", "")...)
+			case 1:
+				raw = sc.Msg("5")
+			case 2:
+				raw = sc.Msg("0")
+			case 3:
+				raw = sc.Msg("1", F(TagTestReqID, "v"+itoa(i)))
+			case 4:
+				raw = sc.Msg("2", FI(TagBeginSeqNo, w.W.Draw(4)), FI(TagEndSeqNo, w.W.Draw(4)))
+			default:
+				raw = sc.Msg("4", F(123, "Y"), FI(36, sc.LastSeq()+1))
+			}
+			sc.P.Send(raw)
+			sc.Settle()
+			w.Probe("valid_message_odd_order")
+			continue
+		}
 		data := hostileBytes(w.W, sc.NextSeq(), sc.PeerID, sc.LibID)
 		switch w.W.Pick(5, 2, 3) {
 		case 0: // through the real stream
